@@ -76,3 +76,14 @@ Proof.
   intros v H. split; [reflexivity|]. unfold L_resources_DirectoryEntry_name__is_wide_dom in H.
   apply high_bit_test. lia.
 Qed.
+
+(* what each binder of the generated definitions stands for in the source (third audit, F2): a function that starts
+   reading another field or index changes coq/gen/Leaf.v only in these lists *)
+From Coq Require Import List String.
+Import ListNotations.
+Lemma leaf_reads_resources :
+  L_resources_DirectoryEntry_is_dir_args = ["self.image.Offset : u32"%string] /\
+  L_resources_DirectoryEntry_name__is_wide_args = ["self.image.Name : u32"%string] /\
+  L_resources_DirectoryEntry_name__offset_args = ["self.image.Name : u32"%string] /\
+  L_resources_DirectoryEntry_entry__offset_args = ["self.image.Offset : u32"%string].
+Proof. repeat split; reflexivity. Qed.
